@@ -116,8 +116,19 @@ def isPyWs (c : Char) : Bool :=
 def pyStripL (cs : List Char) : List Char :=
   ((cs.dropWhile isPyWs).reverse.dropWhile isPyWs).reverse
 
-/-- `data.startswith('nan')` -/
+/-- `s.startswith('nan')` (a magnitude token that starts like this is `nan`) -/
 def startsWithNan (cs : List Char) : Bool := (stripPrefix? ['n', 'a', 'n'] cs).isSome
+
+/-- `data == 'nan' or data.startswith('nan ')`: the magnitude is the separate token `nan`
+(not a unit whose name merely starts with `nan`: nanometer, nanomolar) -/
+def isNanMagnitude (cs : List Char) : Bool :=
+  cs == ['n', 'a', 'n'] || (stripPrefix? ['n', 'a', 'n', ' '] cs).isSome
+
+/-- `if unit_str.startswith('/'): unit_str = '1 ' + unit_str` (pint writes `nan / second`) -/
+def fixRecip (cs : List Char) : List Char :=
+  match cs with
+  | '/' :: _ => '1' :: ' ' :: cs
+  | _ => cs
 
 /-! ## serialize -/
 
@@ -230,8 +241,8 @@ def nanTimes : PVal → PVal
 
 /-- `UnitsSerializer.deserialize` on the regex group -/
 def deserUnits (P : Pint) (m : String) : Except Err PVal :=
-  if startsWithNan m.toList then
-    match P.parse (String.ofList (pyStripL (m.toList.drop 3))) with
+  if isNanMagnitude m.toList then
+    match P.parse (String.ofList (fixRecip (pyStripL (m.toList.drop 3)))) with
     | .ok r => .ok (nanTimes r)
     | .error e => .error e
   else P.parse m
